@@ -306,7 +306,7 @@ def genHammingCoef (alpha : α) : Nat → α
 
 /-- the cosine-sum windows of `scipy.signal.get_window` exercised for `util.csd` / `util.psd` -/
 inductive CosWindow
-  | hann | hamming | blackman | flattop
+  | hann | hamming | blackman | flattop | nuttall | blackmanharris
   deriving Repr, DecidableEq
 
 /-- number of coefficients (`len(a)`) -/
@@ -315,9 +315,12 @@ def CosWindow.terms : CosWindow → Nat
   | .hamming => 2
   | .blackman => 3
   | .flattop => 5
+  | .nuttall => 4
+  | .blackmanharris => 4
 
 /-- SciPy's coefficient tables: `hann = general_hamming(0.5)`, `hamming = general_hamming(0.54)`,
-`blackman = [0.42, 0.50, 0.08]`, `flattop = [0.21557895, 0.41663158, 0.277263158, 0.083578947, 0.006947368]` -/
+`blackman = [0.42, 0.50, 0.08]`, `flattop = [0.21557895, 0.41663158, 0.277263158, 0.083578947, 0.006947368]`,
+`nuttall = [0.3635819, 0.4891775, 0.1365995, 0.0106411]`, `blackmanharris = [0.35875, 0.48829, 0.14128, 0.01168]` -/
 def CosWindow.coef : CosWindow → Nat → α
   | .hann => genHammingCoef (nat 5 / nat 10)
   | .hamming => genHammingCoef (nat 54 / nat 100)
@@ -333,8 +336,20 @@ def CosWindow.coef : CosWindow → Nat → α
     | 3 => nat 83578947 / nat 1000000000
     | 4 => nat 6947368 / nat 1000000000
     | _ => nat 0
+  | .nuttall => fun
+    | 0 => nat 3635819 / nat 10000000
+    | 1 => nat 4891775 / nat 10000000
+    | 2 => nat 1365995 / nat 10000000
+    | 3 => nat 106411 / nat 10000000
+    | _ => nat 0
+  | .blackmanharris => fun
+    | 0 => nat 35875 / nat 100000
+    | 1 => nat 48829 / nat 100000
+    | 2 => nat 14128 / nat 100000
+    | 3 => nat 1168 / nat 100000
+    | _ => nat 0
 
-/-- `scipy.signal.get_window(name, n)` for the four cosine-sum windows -/
+/-- `scipy.signal.get_window(name, n)` for these cosine-sum windows -/
 def CosWindow.window (w : CosWindow) (n : Nat) : Nat → α := cosWin w.coef w.terms n
 
 /-- `util.phase(s, fs, unwrap=False)[k]` (`phase` calls `csd` with `detrend=None`) -/
